@@ -918,6 +918,14 @@ private:
     int64_t calculateChipChannelGoodness(size_t c, const MIDIchannel::NoteInfo::Phys &ins) const;
 
     /**
+     * @brief Checks whether the key of the chip channel's user is still held down
+     * @param c Chip channel the user belongs to
+     * @param d The user of the chip channel
+     * @return true when the note is still active and occupies this chip channel (sustain marks don't matter)
+     */
+    bool isUserKeyDown(size_t c, const OpnChannel::LocationData &d) const;
+
+    /**
      * @brief A new note will be played on this channel using this instrument.
      * @param c Wanted chip channel
      * @param ins Instrument wanted to be used in this channel
